@@ -785,7 +785,7 @@ func (x *Exec) eventKeysOfContract(fc *FuncContract) []string {
 			switch e.Fn {
 			case "calls", "callarg", "callres", "panicked":
 				if len(e.Args) > 0 {
-					k := callKeyOf(e.Args[0])
+					k := renameLabel(callKeyOf(e.Args[0]), x.e.renamesOf(x.fn))
 					if !seen[k] {
 						seen[k] = true
 						out = append(out, k)
@@ -793,7 +793,7 @@ func (x *Exec) eventKeysOfContract(fc *FuncContract) []string {
 				}
 			case "before":
 				for _, a := range e.Args {
-					k := callKeyOf(a)
+					k := renameLabel(callKeyOf(a), x.e.renamesOf(x.fn))
 					if !seen[k] {
 						seen[k] = true
 						out = append(out, k)
@@ -836,6 +836,15 @@ func (x *Exec) loopContract(fr *FrameState, l *Loop) *LoopContract {
 	if fr.depth > 0 {
 		if fc := x.e.contractOf(fr.fn); fc != nil {
 			if lc := fc.Loops[l.Ord]; lc != nil {
+				return lc
+			}
+		} else if x.fc != nil && len(x.fc.Loops) > 0 {
+			// a loop that was moved into a small helper without contract (extract-function refactoring): the invariants
+			// the verified function declares beyond its own loops are tried for it, in order. They are checked like any
+			// invariant (entry, preservation), so a wrong match can only fail, never prove too much.
+			own := len(x.loopsOf(x.fn))
+			if lc := x.fc.Loops[own+l.Ord]; lc != nil {
+				x.e.note("loop " + fmt.Sprint(own+l.Ord) + " of " + shortTypeKey(x.e.funcKey(x.fn)) + " is now in the helper " + fr.fn.Name() + ": its invariants are applied there")
 				return lc
 			}
 		}
